@@ -14,6 +14,7 @@ def stories():
         {"id": "never-ack-then-restart", "keys": 1, "memWindow": 0, "gens": [{"upstream": ["noAck", "noAck", "noAck", "noAck"], "clients": [c(50, 10, 35)], "stopAfterMs": 100}, {"upstream": ["noAck"], "clients": [c(10, 5, 35)], "stopAfterMs": 50}, fin]},
         {"id": "late-ack-after-reconnect", "keys": 2, "memWindow": 0, "gens": [{"upstream": ["lateAck", "resetAfter1", "lateAck"], "clients": [c(40, 5, 35), c(10)], "stopAfterMs": 60}, fin]},
         {"id": "spill-then-restart", "keys": 1, "memWindow": 2, "gens": [{"upstream": ["noAck"], "clients": [c(120, 6, 35), c(60, 6, 35, 20)], "stopAfterMs": 50}, {"upstream": ["resetAfter2", "healthy"], "clients": [c(20, 5, 35)], "stopAfterMs": 80}, fin]},
+        {"id": "silent-upstream-full-ack-window", "keys": 1, "memWindow": 0, "gens": [{"upstream": ["noAck"], "clients": [c(96, 3, 32)], "stopAfterMs": 40}, {"upstream": ["noAck", "healthy"], "clients": [c(30, 3, 32)], "stopAfterMs": 30}, fin]},
         {"id": "stop-mid-retry", "keys": 2, "memWindow": 0, "gens": [{"upstream": ["closeNow"] * 30, "clients": [c(20, 5, 35)], "stopAfterMs": 0}, {"upstream": ["noAck"], "clients": [c(20, 5, 35)], "stopAfterMs": 0}, fin]},
     ]
 
